@@ -23,8 +23,9 @@ Not modelled: `SerializableJSON` / `DeserializableJSON` implementations and synt
 (user callbacks), `ArrayRules.MustOccur`, object codes on non-byte slice/array types (the encoder
 panics in `reflect.Value.Bytes`), inlined interfaces / inlined pointers, `optional`/`omitempty` on
 inlined fields, an explicit field key on a by-value typed byte array, strings that are not valid
-UTF-8 (Lean strings are sequences of Unicode scalars), JSON numbers with a fraction or exponent,
-times outside the int64-nanosecond range above 2^63 ns.  Core Lean only.
+UTF-8 (Lean strings are sequences of Unicode scalars), JSON numbers with a fraction or exponent.
+Times of every range are modelled (instants are integers, `TimeToUint64` saturates on both sides).
+Core Lean only.
 -/
 namespace Hive.SerixJson
 
@@ -281,10 +282,18 @@ def JTy.byValueTyped : JTy → Option (Option Nat × Nat)
 
 /-! ## the encoder -/
 
+/-- `math.MaxInt64`: what `serializer.TimeToUint64` answers for every instant whose nanosecond count
+does not fit an `int64` (seconds beyond `MaxNanoTimestampInt64Seconds`, or the last representable
+second with an overflowed `UnixNano`). -/
+def maxNano : Nat := 2 ^ 63 - 1
+
+/-- `strconv.FormatUint(serializer.TimeToUint64(t), 10)` of the instant `n` ns after the epoch (any
+`time.Time`: `n` is not limited to the `int64` range): instants before the epoch are truncated to
+the epoch, instants from 2^63 ns on saturate at `math.MaxInt64`. -/
 def encTime (n : Int) : Except Err Json :=
   if n < 0 then .ok (.str (decStr 0))          -- serializer.TimeToUint64 truncates to the epoch
   else if n < pow2 63 then .ok (.str (decStr n.toNat))
-  else .error .illTyped
+  else .ok (.str (decStr maxNano))
 
 def keyString : Json → Except Err String
   | .str s => .ok s
